@@ -105,7 +105,11 @@ func genPlan(t *rapid.T) interface{} {
 		n := rapid.IntRange(1, 12).Draw(t, "nops")
 		var ops []op
 		for i := 0; i < n; i++ {
-			switch rapid.IntRange(0, 5).Draw(t, fmt.Sprintf("op%d.kind", i)) {
+			switch rapid.IntRange(0, 6).Draw(t, fmt.Sprintf("op%d.kind", i)) {
+			case 6:
+				// a write that lands while the processor, having found the
+				// queue empty, is about to skip the exhausted segment
+				ops = append(ops, op{Kind: "write-in-empty-window", NPoints: rapid.IntRange(1, 3).Draw(t, fmt.Sprintf("op%d.np", i))})
 			case 0, 1, 2:
 				ops = append(ops, op{Kind: "write", NPoints: rapid.IntRange(1, 5).Draw(t, fmt.Sprintf("op%d.np", i))})
 			case 3:
@@ -201,6 +205,10 @@ type qimage struct {
 	// torn: the image holds a partially persisted append write (0 < cut < n),
 	// or descends from such an image.
 	torn bool
+	// tornBytes: bytes of partially persisted appends that stay in segment
+	// files of this image (and its ancestors) without being a block; they
+	// count towards the size limit until their segment is trimmed.
+	tornBytes int64
 }
 
 type qrunner struct {
@@ -240,6 +248,10 @@ func (r *qrunner) phase(dir string, depth int, m *qmodel, recovered *qimage, lab
 	// resolved yet (nothing has been delivered since).
 	maybeAdv := recovered != nil && recovered.inflightAdv
 	tornCtx := recovered != nil && recovered.torn
+	var tornBytes int64
+	if recovered != nil {
+		tornBytes = recovered.tornBytes
+	}
 	// fail records a violation; everything observed on a store recovered
 	// from a torn append write is attributed to that site.
 	fail := func(class, site, format string, args ...interface{}) {
@@ -265,7 +277,10 @@ func (r *qrunner) phase(dir string, depth int, m *qmodel, recovered *qimage, lab
 			}
 			return nil
 		})
-		im := &qimage{dir: idir, model: m.clone(), inflightAdv: curAdv || maybeAdv, inflightKind: curKind, event: ev, torn: torn || tornCtx, maxSeg: maxSeg}
+		im := &qimage{dir: idir, model: m.clone(), inflightAdv: curAdv || maybeAdv, inflightKind: curKind, event: ev, torn: torn || tornCtx, maxSeg: maxSeg, tornBytes: tornBytes}
+		if torn && curApp != nil {
+			im.tornBytes += int64(len(curApp.data)) + 8
+		}
 		if curApp != nil {
 			b := *curApp
 			im.inflightApp = &b
@@ -383,7 +398,10 @@ func (r *qrunner) phase(dir string, depth int, m *qmodel, recovered *qimage, lab
 	// deliver mimics NodeProcessor.SendWrite: Current; on EOF advance (skip to
 	// the next segment); on another error truncate the corrupt block.
 	deliver := func(i int, skipHeadOK bool, mayAppend *block) (delivered bool) {
-		for try := 0; try < 3; try++ {
+		// every attempt moves past at most one exhausted or empty segment (a
+		// refused over-size append leaves an empty segment behind), so the
+		// bound counts segments
+		for try, tries := 0, q.SegmentCount()+3; try < tries; try++ {
 			b, err := q.Current()
 			if err == io.EOF {
 				curKind, curAdv = "advance", false
@@ -523,7 +541,7 @@ func (r *qrunner) phase(dir string, depth int, m *qmodel, recovered *qimage, lab
 				if maybeApp != nil {
 					slack = int64(len(maybeApp.data)) + 8
 				}
-				if int64(8*(q.SegmentCount()+1))+m.written+slack+int64(len(b.data))+8 <= r.p.MaxSize {
+				if int64(8*(q.SegmentCount()+1))+m.written+slack+tornBytes+int64(len(b.data))+8 <= r.p.MaxSize {
 					fail("append-refused-without-reason", "", "%s op%d: ErrQueueFull although everything ever appended (%d bytes) plus this block (%d) fits max size %d", label, i, m.written, len(b.data), r.p.MaxSize)
 				}
 				run.Probe("append-refused-size-limit")
@@ -540,7 +558,7 @@ func (r *qrunner) phase(dir string, depth int, m *qmodel, recovered *qimage, lab
 			pend := len(m.all) - m.head
 			ok := deliver(i, false, nil)
 			if !ok && !run.Failed() && pendingMust() > 0 {
-				fail("pending-block-not-delivered", "", "%s op%d: %d blocks pending but three send attempts delivered nothing", label, i, pend)
+				fail("pending-block-not-delivered", "", "%s op%d: %d blocks pending but one send attempt per segment (+3) delivered nothing", label, i, pend)
 			}
 			checkEmpty(i, "advance")
 		case "current":
@@ -697,6 +715,35 @@ func execProcessor(run *core.Run, p *plan) {
 		run.Op(o.Kind)
 		run.Logf("op%d %s", i, o.Kind)
 		switch o.Kind {
+		case "write-in-empty-window":
+			var pts []models.Point
+			for j := 0; j < o.NPoints; j++ {
+				seq++
+				pt, _ := models.NewPoint("m", models.NewTags(map[string]string{"k": fmt.Sprint(seq)}), models.Fields{"v": int64(seq)}, time.Unix(0, int64(seq)))
+				pts = append(pts, pt)
+			}
+			fired := false
+			var werr error
+			verifhook.SetYield(func(ev string, args ...interface{}) {
+				if ev != "hh.sendwrite.eof" || fired {
+					return
+				}
+				fired = true
+				werr = np.WriteShard(pts)
+			})
+			time.Sleep(3 * time.Duration(cfg.RetryMaxInterval))
+			verifhook.SetYield(nil)
+			if fired {
+				run.Probe("write-in-empty-window")
+				if werr != nil {
+					run.Logf("op%d window write refused: %v", i, werr)
+				} else {
+					for _, pt := range pts {
+						b, _ := pt.MarshalBinary()
+						accepted = append(accepted, b)
+					}
+				}
+			}
 		case "write":
 			var pts []models.Point
 			for j := 0; j < o.NPoints; j++ {
@@ -855,7 +902,7 @@ func TestC04(t *testing.T) {
 		Bubble:         true,
 		Describe:       describe,
 		Tier:           "A",
-		RequiredProbes: []string{"image-drained", "append-accepted", "reopen", "all-delivered", "crash-after-head-trim"},
+		RequiredProbes: []string{"image-drained", "append-accepted", "reopen", "all-delivered", "crash-after-head-trim", "write-in-empty-window"},
 		Real:           []string{"hh.queue, hh.segment (append/flush/advance/truncate/trimHead/PurgeOlderThan)", "hh.NodeProcessor (WriteShard, run loop, SendWrite, back-off)", "pkg/limiter"},
 		Stub:           []string{"target node (WriteShardBinary outcomes scripted)", "meta client (DataNode present/removed)"},
 		Assumptions: []string{
